@@ -69,7 +69,10 @@ C08Holds(k, r) ==
   \* re-printing is identity, whatever the verb, flags and container
   /\ \A sh \in RShapes :
         (Len(k.ts) = 1 /\ k.e = "Sprintf" /\ k.ts[1] \in {RShape(sh, TRStr(2, r0)), RShape(sh, TRBytes(2, r0))})
-          => out = RWrap(sh, r0, k.f = FplusV)
+          => IF k.f = FsharpV
+             \* Go syntax: type names and braces around it, the redactable itself unchanged (at any depth)
+             THEN \E i \in 0..(Len(out) - Len(r0)) : SubSeq(out, i + 1, i + Len(r0)) = r0
+             ELSE out = RWrap(sh, r0, k.f = FplusV)
   /\ (Len(k.ts) = 1 /\ k.ts[1].k = "slice" /\ Len(k.ts[1].xs) = 2) =>
         out = <<91>> \o k.ts[1].xs[1].b \o <<SP>> \o k.ts[1].xs[2].b \o <<93>>
   /\ (Len(k.ts) = 1 /\ k.e = "Sprint" /\ k.ts[1].k = "rstring") =>
